@@ -166,7 +166,12 @@ def r2_xmlname(ctx):
                 r = st["r"]
                 if r["k"] == "agg" and r.get("adt") == "quick_xml::se::XmlName":
                     n += 1
-                    ctx.ob("R2", "construct:%s" % sym.short(strip_generics(b.path)), strip_generics(b.path).endswith("se::XmlName::try_from"),
+                    owner = b
+                    hops = 0
+                    while not strip_generics(owner.path).endswith("se::XmlName::try_from") and sole_caller(F, owner) is not None and hops < 2:
+                        owner = sole_caller(F, owner)   # a private helper of the validating constructor is a piece of it
+                        hops += 1
+                    ctx.ob("R2", "construct:%s" % sym.short(strip_generics(b.path)), strip_generics(owner.path).endswith("se::XmlName::try_from"),
                            "XmlName(..) may only be built by the validating constructor", loc=b.loc(st["s"]), config=cfg)
         ctx.floor("R2", "XmlName constructions", n, 1, config=cfg)
         b = ctx.body(F, "se::XmlName::try_from", "R2")
@@ -196,7 +201,9 @@ def r2_xmlname(ctx):
             ctx.ob("R2", site + ":returns-arg", has_subterm(r, lambda s: s[0] == "arg" and s[2] == "name"), "the validated string is the one wrapped", config=cfg)
         ctx.floor("R2", "Ok paths of XmlName::try_from", oks, 1, config=cfg)
         # the closure negates is_xml11_name_char; the loop rejects on the first hit
-        cb = F.body("se::XmlName::try_from::{closure#0}")
+        # (the predicate is the closure handed to the scan on the Ok paths, wherever it was written)
+        cbs = {a[1] for p in ctx.paths(b) for c in calls(p) if name_is(c[2], "matches", "all", "any", "find") for a in c[3] if a[0] == "closure"}
+        cb = F.closure(sorted(cbs)[0]) if cbs else F.body("se::XmlName::try_from::{closure#0}")
         if cb is not None:
             neg = False
             for p in sym.walk(cb):
